@@ -59,14 +59,16 @@ SPEC = {
     'thorough tier: a real os._exit from an audit hook in a child process before every Python-level file-system event of an Orbax save',
     'A-ORBAX: Checkpointer.save = [rmtree(destination) if force and it exists] ; [rmtree(stale temp dir)] ; mkdir temp dir ; write ; one atomic '
     'rename (read from the installed orbax 0.12.x; exercised through real saves, a cut right before its rename, and the thorough-tier kills)',
-    'A-NAT (reduced): for INTEGER steps the ordering of `<anything ending in an inert character><str(step)>` by step value, latest = max and '
-    '`<prefix>tmp` last are Lean theorems over the character-level model lean/Flax/Model/NatSort.lean of SIGNED_FLOAT_RE.split / maybe_num / sorted '
-    '(natural_sort_orders_by_value, natural_sort_latest_is_max, natural_sort_tmp_sorts_last; guard: last character before the number is not a digit, '
-    'sign, dot, e/E); that model is tied to the real regex exhaustively on short strings + random, and to the real natural_sort on name lists, on every run. '
-    'Still assumed: (a) float / exponent-notation steps — order of their printed names by value is validated differentially only (model-vs-real natural_sort '
-    'and sort-by-value oracle), no theorem; (b) A-FLOAT: float() is exact on int literals below 2**53 and monotone-injective on the reprs of distinct doubles '
-    '(no overflow/underflow); (c) \\d = ASCII digit (ASCII names); (d) Python sorted = stable sort by key (modelled as insertion sort), list/str comparison as modelled; '
-    '(e) str(int) = showInt (validated differentially). Violated guard = known finding F6 (theorem natural_sort_sign_prefix_misorders)',
+    'A-NAT is now theorems over the character-level model lean/Flax/Model/NatSort.lean of SIGNED_FLOAT_RE.split / maybe_num / sorted / '
+    '_checkpoint_path_step, for every printed step `[-+]?digits(.digits*)?([eE][-+]?digits)?` (str(int), repr(float) incl. exponent notation) after '
+    'anything whose last character is not a digit, sign, dot, e/E (digits elsewhere in directory or prefix allowed): natural_sort_orders_numbers_by_value, '
+    'natural_sort_latest_is_max_number (order = exact decimal value m*10^e, decCmp_is_value_order), natural_sort_orders_by_value / listing_is_natural_sort '
+    '(integers, composed with the directory model), natural_sort_tmp_sorts_last, checkpoint_path_step_is_the_step. The model is tied to the real regex '
+    'exhaustively on short strings + random, and to the real natural_sort and _checkpoint_path_step on name lists, on every run. '
+    'Still assumed: A-FLOAT — Python float() orders these literals as their decimal values do (exact for ints below 2**53, monotone and injective on the reprs of '
+    'distinct finite doubles; overflow/underflow literals excluded); \\d = ASCII digit (ASCII names); sorted = stable sort by key (modelled as insertion sort), '
+    'list/str comparison as modelled; str(int) = showInt (validated differentially); repr(float) lies in the literal class (examples only). '
+    'Violated guard = known finding F6 (theorem natural_sort_sign_prefix_misorders)',
   ],
   'assumptions': [
     'step values of one directory are numerically distinct (int 1 and float 1.0 are not mixed) and |int| < 2**53',
@@ -78,10 +80,11 @@ SPEC = {
     'single process (process_count == 1), no multi-process arrays, save_checkpoint (not save_checkpoint_multiprocess)',
   ],
   'model_partial': [
-    'order of printed step names: proved from a character-level model of natural_sort for integer steps only (natural_sort_orders_by_value); for float / '
-    'exponent-notation steps it remains assumption A-NAT(a), validated differentially; float() itself is A-FLOAT',
+    'order of printed step names: proved from the character-level model for ints, floats and exponent notation (natural_sort_orders_numbers_by_value) as the order '
+    'of exact decimal values; that Python float() realises the same order (A-FLOAT) is assumed and validated differentially',
     'the directory model keeps final names sorted by step VALUE; listing_is_natural_sort composes it with the NatSort model (what natural_sort returns on the '
-    'printed names, in any listdir order, is the model listing; its last element is latest) — for integer steps only',
+    'printed names, in any listdir order, is the model listing; its last element is latest) — for integer steps; for float steps the two models are connected only '
+    'through the harness (it scales the exact binary values of the steps to integers; same order as the decimal values under A-FLOAT)',
     'crash_safe_orbax carries the hypothesis InPlaceFree (see assumptions; finding F15 shows it is needed); crash_safe_legacy and both retry theorems have none',
   ],
 }
@@ -1269,6 +1272,26 @@ def check_tokeniser(ctx, drv, rng, thorough):
       ctx.violation('model-mismatch-natsort', f'natural_sort{c["paths"]} = {w}, model {o}', c, concrete=False)
       return
   ctx.count('tokeniser', 'natsort_lists', len(reqs))
+  # (d) _checkpoint_path_step: the number the retention code reads off a path (model: last number token of the path)
+  real_ps = getattr(cp, '_checkpoint_path_step', None)
+  if real_ps is not None:
+    pths = [p_ for c in cases for p_ in c['paths']][: (20000 if thorough else 1500)]
+    pths += ['', 'abc', '/tmp/x9/none', 'run2_7', '/a1/b-2/run2_7', 'x5.', 'v.5e', '12/ck_tmp']
+    out = drv.run([('path_step', [pths])])
+    if out[0][0] != 'ok':
+      raise InfraError(f'driver: {out[0]}')
+    for p_, mt in zip(pths, out[0][1]):
+      try:
+        w = real_ps(p_)
+      except Exception as e:
+        w = 'Exception:' + type(e).__name__
+      g = None if mt is None else float(mt)
+      ctx.case({'path_step': p_}, nontrivial=mt is not None)
+      if w != g and not (isinstance(w, float) and isinstance(g, float) and math.isnan(w) and math.isnan(g)):
+        ctx.disagreements_checked += 1
+        ctx.violation('model-mismatch-path-step', f'_checkpoint_path_step({p_!r}) = {w}, model reads the token {mt!r}', {'kind': 'path-step', 'path': p_}, concrete=False)
+        break
+    ctx.count('tokeniser', 'path_steps', len(pths))
 
 
 # ------------------------------------------------------------------------------------------------
@@ -1697,6 +1720,12 @@ def _run_case(ctx, root, drv, obj):
     want = cp.SIGNED_FLOAT_RE.split(case['s'])
     if out[0][0] != 'ok' or [x[1] for x in out[0][1][0]] != want:
       ctx.violation('model-mismatch-tokens', f'split({case["s"]!r}) = {want}, model {out[0]}', case, concrete=False)
+  elif kind == 'path-step':
+    out = drv.run([('path_step', [[case['path']]])])
+    w = cp._checkpoint_path_step(case['path'])
+    mt = out[0][1][0] if out[0][0] == 'ok' else 'driver-error'
+    if (None if mt is None else float(mt)) != w:
+      ctx.violation('model-mismatch-path-step', f'_checkpoint_path_step = {w}, model token {mt!r}', case, concrete=False)
   elif kind == 'natsort-model':
     out = drv.run([('natsort', [case['paths']])])
     want = cp.natural_sort(case['paths'])
